@@ -392,26 +392,36 @@ def export_json(stats, verbose=0, category_filter=None, merchant_filter=None):
     by_month = stats.get('by_month', {})
     by_category = stats.get('by_category', {})
 
-    # Calculate gross spending and credits
+    # Gross spending (positive merchants only) for the category percentages
     gross_spending = sum(d['total'] for d in by_merchant.values() if d['total'] > 0)
-    credits_total = abs(sum(d['total'] for d in by_merchant.values() if d['total'] < 0))
 
-    # Calculate income and transfers from merchants by tag
-    income_total = sum(d['total'] for d in by_merchant.values()
-                       if 'income' in [t.lower() for t in d.get('tags', set())])
-    transfers_total = abs(sum(d['total'] for d in by_merchant.values()
-                              if 'transfer' in [t.lower() for t in d.get('tags', set())]))
+    # Cash-flow figures: the ones analyze_transactions computed per transaction, so that
+    # JSON, Markdown, text and HTML all report the same numbers. (They used to be
+    # re-derived here from merchant-level totals and tags, which disagrees as soon as a
+    # merchant has both purchases and refunds, or only some of its transactions tagged.)
+    income_total = stats.get('income_total', 0)
+    spending_total = stats.get('spending_total', 0)
+    credits_total = stats.get('credits_total', 0)
+    transfers_in = stats.get('transfers_in', 0)
+    transfers_out = stats.get('transfers_out', 0)
+    investment_total = stats.get('investment_total', 0)
+    net_cash_flow = round(stats.get('cash_flow', income_total - spending_total + credits_total), 2)
+    transfers_total = transfers_in + transfers_out
 
     output = {
         'summary': {
             'total_spending': round(stats['total'], 2),
             'gross_spending': round(gross_spending, 2),
+            'spending_total': round(spending_total, 2),
             'credits_total': round(credits_total, 2),
             'monthly_budget': round(stats['monthly_avg'], 2),
             'num_months': stats['num_months'],
             'income_total': round(income_total, 2),
             'transfers_total': round(transfers_total, 2),
-            'net_cash_flow': round(income_total - stats['total'], 2) if income_total > 0 else None,  # transfers excluded
+            'transfers_in': round(transfers_in, 2),
+            'transfers_out': round(transfers_out, 2),
+            'investment_total': round(investment_total, 2),
+            'net_cash_flow': net_cash_flow,
         },
         'by_month': {month: {'total': round(total, 2)}
                      for month, total in sorted(by_month.items())},
